@@ -289,6 +289,77 @@ func c16random(g *G, n int) []byte {
 	return out
 }
 
+// c16longRuns emits inputs in which ONE lexical state lasts longer than any buffer between the reader and the
+// scanner (the bufio.Reader's 4096 bytes, twice that, and a little around both): a bare word, a single- and a
+// double-quoted body, a double-quoted body full of escapes, a run of blanks, a run of backslash pairs, a comment.
+// Random text changes state every few bytes and never gets there.
+func c16longRuns(g *G, f func(b []byte)) {
+	lens := []int{4094, 4095, 4096, 4097, 8192, 8193}
+	if g.Thorough() {
+		lens = append(lens, 4093, 4098, 8190, 8191, 8194, 9000, 12288, 12289, 16385)
+	}
+	body := func(kind, n int) []byte {
+		b := make([]byte, 0, n+8)
+		switch kind {
+		case 0: // bare word
+			for len(b) < n {
+				b = append(b, "abcxyz019_./"[g.Intn(12)])
+			}
+		case 1: // single-quoted body (anything but a single quote is literal)
+			b = append(b, '\'')
+			for len(b) < n+1 {
+				b = append(b, "ab \t\\\"$\n"[g.Intn(8)])
+			}
+			b = append(b, '\'')
+		case 2: // double-quoted body without escapes
+			b = append(b, '"')
+			for len(b) < n+1 {
+				b = append(b, "ab \t'$\n"[g.Intn(7)])
+			}
+			b = append(b, '"')
+		case 3: // double-quoted body made of escape pairs and text
+			b = append(b, '"')
+			for len(b) < n+1 {
+				if g.Chance(1, 3) {
+					b = append(b, '\\', "\\\"a\n$"[g.Intn(5)])
+				} else {
+					b = append(b, 'a')
+				}
+			}
+			b = append(b, '"')
+		case 4: // blanks
+			for len(b) < n {
+				b = append(b, " \t\n"[g.Intn(3)])
+			}
+		case 5: // backslash pairs outside quotes
+			for len(b) < n {
+				b = append(b, '\\', "\\ a'\"\n"[g.Intn(6)])
+			}
+		case 6: // unterminated single quote (Split reports false, the text is kept)
+			b = append(b, '\'')
+			for len(b) < n {
+				b = append(b, "ab "[g.Intn(3)])
+			}
+		}
+		return b
+	}
+	i := 0
+	for kind := 0; kind <= 6; kind++ {
+		for _, n := range lens {
+			if !g.Mine(i) {
+				i++
+				continue
+			}
+			i++
+			// the run at the very start, and after a short prefix that shifts it against the buffer boundary
+			pre := [][]byte{nil, []byte("x "), []byte("a'b' \"c\" ")}[g.Intn(3)]
+			b := append(append([]byte{}, pre...), body(kind, n)...)
+			b = append(b, " tail 'q' \"r\"\n"...)
+			f(b)
+		}
+	}
+}
+
 func genC16(g *G) {
 	sh, nsh := c15shard(g)
 	const perCase = 200
@@ -349,6 +420,7 @@ func genC16(g *G) {
 		}
 		g.Case([]string{"reset", "split " + c15hex(b)})
 	}
+	c16longRuns(g, func(b []byte) { g.Case([]string{"reset", "split " + c15hex(b)}) })
 	// the two shells on eligible inputs
 	if c15haveShells() {
 		batches := g.Scale(25, 300)
@@ -657,6 +729,17 @@ func genC16Scanner(g *G) {
 		ops = append(ops, g.Pick("split", fmt.Sprintf("each %d", len(toks)+1)), "next", "rest")
 		g.Case(ops)
 	}
+	// (a'') one lexical state lasting longer than the buffer, whole and byte by byte
+	c16longRuns(g, func(b []byte) {
+		toks, _ := shell.Split(string(b))
+		frag := g.Pick("all", "b1", "c4095,4096,4097")
+		ops := []string{fmt.Sprintf("reset new %s eof %s", c15hex(b), frag)}
+		for i := 0; i < len(toks)+2; i++ {
+			ops = append(ops, "next")
+		}
+		g.Case(ops)
+		g.Case([]string{fmt.Sprintf("reset new %s eof %s", c15hex(b), frag), "next", "rest", "next"})
+	})
 	// (b) random longer inputs, random fragmentation, random use of the API incl. Reset
 	for c := 0; c < g.Scale(400, 8000); c++ {
 		var ops []string
